@@ -17,6 +17,12 @@ import (
 	"github.com/named-data/ndnd/std/utils"
 )
 
+// internalTransportMTU is the frame size limit of the in-memory link to an internal
+// component. Receive does not reassemble, so every packet up to the maximum packet size
+// must fit into one frame together with the NDNLPv2 headers of the link service
+// (incoming face id, PIT token of up to 32 bytes, congestion mark).
+const internalTransportMTU = defn.MaxNDNPacketSize + 128
+
 // InternalTransport is a transport for use by internal YaNFD modules (e.g., management).
 type InternalTransport struct {
 	recvQueue chan []byte // Contains pending packets sent to internal component
@@ -33,7 +39,7 @@ func MakeInternalTransport() *InternalTransport {
 		PersistencyPersistent,
 		defn.Local,
 		defn.PointToPoint,
-		defn.MaxNDNPacketSize)
+		internalTransportMTU)
 	t.recvQueue = make(chan []byte, faceQueueSize)
 	t.sendQueue = make(chan []byte, faceQueueSize)
 	t.running.Store(true)
@@ -45,6 +51,7 @@ func RegisterInternalTransport() (LinkService, *InternalTransport) {
 	transport := MakeInternalTransport()
 
 	options := MakeNDNLPLinkServiceOptions()
+	options.IsFragmentationEnabled = false // Receive hands every frame to the component as one packet
 	options.IsIncomingFaceIndicationEnabled = true
 	options.IsConsumerControlledForwardingEnabled = true
 	link := MakeNDNLPLinkService(transport, options)
